@@ -530,4 +530,33 @@ Qed.
 Theorem set_get_id : forall e, wf meta e = true -> set_params meta e (G e) = Ok e.
 Proof. intros e Hwf. unfold set_params. apply set_get_id_fuel; [exact Hwf|lia]. Qed.
 
+(* ------------------------------------------------------------------ get_params reads along the path *)
+Lemma subs_intro h r rest v kvs : In (h :: r :: rest, v) kvs -> In (r :: rest, v) (subs h kvs).
+Proof.
+  intro H. unfold subs. apply in_flat_map. exists (h :: r :: rest, v). split; [exact H|].
+  cbn [fst snd tl]. rewrite String.eqb_refl. now left.
+Qed.
+
+(* every binding key -> value of get_params(deep=True) is what the structural read along the key
+   finds: component__param denotes the parameter `param` of the component `component`, to any depth *)
+Theorem get_params_reads_path : forall (p : list string) e v,
+  wf meta e = true -> In (p, v) (G e) -> get_path meta p e = Some v.
+Proof.
+  induction p as [|h rest IH]; intros e v Hwf Hin.
+  - exfalso. exact (get_params_paths_nonempty meta _ _ _ Hin eq_refl).
+  - assert (Hwh : wf_here meta e = true) by (rewrite wf_unfold, andb_true_iff in Hwf; tauto).
+    destruct rest as [|r rest].
+    + cbn [get_path]. pose proof (G_flat e _ Hwh Hin eq_refl) as Hok. unfold flat_ok in Hok.
+      cbn [head_of fst snd] in Hok. destruct Hok as [Ha|[c [-> [Hc _]]]]; [|now rewrite Hc].
+      destruct (assoc_e h (steps_of meta e)) as [c|] eqn:Ec; [|exact Ha].
+      exfalso. apply (wf_here_step_not_param meta e h Hwh).
+      * unfold step_names. apply assoc_e_In_names. congruence.
+      * unfold param_names. apply assoc_v_In_names. congruence.
+    + destruct (G_nested_component e _ Hwh Hin eq_refl) as [c Hc]. cbn [head_of fst] in Hc.
+      change (get_path meta (h :: r :: rest) e)
+        with (match component meta e h with Some c0 => get_path meta (r :: rest) c0 | None => None end).
+      rewrite Hc. apply IH; [exact (wf_component meta _ _ _ Hwf Hc)|].
+      rewrite <- (subs_G e h c Hwh Hc). now apply subs_intro.
+Qed.
+
 End WithMeta.
